@@ -7,6 +7,7 @@ from typing_extensions import Literal
 
 from .base import BaseType, ImportPathList, MetaData, get_hash_string
 from .typing import metadata_to_typing
+from ..utils import string_literal
 
 
 class SingleType(BaseType):
@@ -268,7 +269,7 @@ class StringLiteral(BaseType):
             limit = options.get(self.TypeStyle.max_literals)
             if limit is None or len(self.literals) < limit:
                 parts = ', '.join(
-                    json.dumps(s, ensure_ascii=False)
+                    string_literal(s)
                     for s in sorted(self.literals)
                 )
                 return [(Literal.__module__, 'Literal')], f"Literal[{parts}]"
